@@ -17,7 +17,7 @@ RULE = (
     "stiffness ladder (part stiff); non-trivial = distinct converged states with non-zero displacement"
 )
 ASSUMPTIONS = ["finite alphabets (configurations, three design points, solver menu)", "convergent couplings only (err_on_non_converge=True; a non-convergent cell is inadmissible, counted)", "solvers tightened to atol 1e-8 / rtol 1e-13 (user-level setting); comparison at 1e-7", "OpenMDAO/NumPy/SciPy trusted"]
-BOUND = {"quick": "2 configurations x 5 solver cells x 2 guesses x 6 orders + point-mass configuration; 2-/3-point models in both point orders vs single-point models", "thorough": "7 configurations"}
+BOUND = {"quick": "2 configurations x 8 solver cells x 2-3 guesses x 6 orders + point-mass / right-half / rotational / wing+tail configurations x 6 orders; 2-/3-point models in both point orders vs single-point models", "thorough": "10 configurations (incl. point mass, right half nx=3, rotational, wing + tail with weight relief)"}
 TOL = 1e-7
 
 CONFIGS = {
